@@ -20,7 +20,7 @@ TInit == l = 1 /\ Load(1)
 
 TApply == /\ Apply
           /\ UNCHANGED l
-          /\ (Matches(res', Events[l].r) \/ PrintT(<<"REJECT", l>>))
+          /\ (IF Matches(res', Events[l].r) THEN TRUE ELSE PrintT(<<"REJECT", l>>))
 
 TLoadNext == /\ res # Pending
              /\ l < Len(Events)
